@@ -136,7 +136,7 @@ CHECKS = {
         design="3/C06", technique="source-regenerated scalar kernels (tools/py2v.py) proved equal to the model + Coq proof over list/slice routing (law-free where possible) + exact-rational correspondence"),
     "C01": dict(
         text="Theorems: with callable components and no options the returned pixel is t_profile(t_i)*f_profile(f_j, path(t_i))*bandpass(f_j) "
-             "on the frame's own axes (Leibniz); array / scalar forms agreeing with a callable on the grid normalise to the same values; an "
+             "on the frame's own axes (Leibniz); array / scalar forms agreeing with a callable on the grid normalise to the same values; a function answering with one constant stands for that scalar under every option (smearing, sub-sample integration); an "
              "array path needs tchans+1 values with smearing and tchans without; the smearing loop equals the mean over n copies centred at "
              "p + m*(p_next - p)/n; one sub-step = unsmeared; zero outside the range. The model (incl. sub-sample integration of path / "
              "time / frequency) is compared pixel for pixel with add_signal, exactly where doubles are exact and to 1e-9 otherwise; shipped "
